@@ -4,9 +4,10 @@ from fractions import Fraction
 from harness.core import Rng, gz, gq, glist, Dec
 
 PID = "C15"
-VO = ["theories/Misc/CorrRemover.vo", "theories/Misc/CorrRemover_proofs.vo", "theories/Base/Flat.vo"]
+VO = ["theories/Misc/CorrRemover.vo", "theories/Misc/CorrRemover_proofs.vo", "theories/Misc/CorrExpr.vo",
+      "theories/Misc/CorrRemover_gj.vo", "theories/Base/Flat.vo"]
 PROPS_FILES = ["props/C15.v"]
-TRANSLATORS = []
+TRANSLATORS = ["t_corr"]
 REQUIRES = ["From FL Require Import Num Flat CorrRemover."]
 SHARD = 20
 CHUNK = 4
@@ -18,16 +19,28 @@ LEVEL_TEXT = ("Proof (Coq): for every matrix (any number of rows >= 1 and of col
               "output column of fit_transform has zero sample covariance with every sensitive column; the output "
               "is alpha*residual + (1-alpha)*original; alpha = 0 returns the non-sensitive columns unchanged in "
               "their original order; any coefficients solving the normal equations give the same projection. "
-              "Tie to the code: differential run of the same Gallina functions (fit_transform, fit, transform) "
+              "The Gauss-Jordan elimination behind beta_ is proved correct (a pivot in every column => the "
+              "coefficients solve the normal equations, and the centred columns are linearly independent), so "
+              "transform(fit(X))(X) == fit_transform(X) entrywise under the full-rank guard only; transform on ANY "
+              "data is, cell by cell, alpha*(u - (srow - training mean).beta[:,j]) + (1-alpha)*u: it depends on the "
+              "training data only through (sensitive_mean_, beta_), output row i only on input row i, affinely. "
+              "Tie to the code: (a) translator t_corr regenerates the expressions stored by fit() and returned by "
+              "transform() as trees whose value is proved to be the model's fit_split / transform_split "
+              "(per-COLUMN mean, lstsq(centred, X_use, rcond=None)[0], residual, alpha blend); (b) differential "
+              "run of the same Gallina functions (fit_transform, fit, transform) "
               "against CorrelationRemover on integer matrices (ndarray / DataFrame, ids by position / by label, "
               "any order, rank-deficient blocks), plus the covariance / blend / affinity oracles on the "
               "implementation alone.")
 LEVEL_NOTE = ("Trusted: Coq kernel + vm_compute; numpy lstsq (its result is compared with the exact rational "
-              "projection, tolerance 1e-8); the generator and comparison code of this module. transform == "
-              "fit_transform on the training data is proved under the premise that the computed beta solves the "
-              "normal equations; that premise is a closed boolean evaluated by the kernel on every case.")
-TECHNIQUE = "Coq proof of orthogonality of the Gram-Schmidt residual + differential model/implementation run"
+              "projection, tolerance 1e-8); the generator and comparison code of this module; the reading of numpy "
+              "broadcasting / .dot / lstsq given by CorrExpr.eval and translators/t_corr.py. The earlier "
+              "C15_transform_is_fit_transform_partial (premise: computed beta solves the normal equations) is kept; "
+              "C15_transform_is_fit_transform is the full statement. Rank-deficient sensitive blocks: lstsq returns "
+              "the minimum-norm solution, the model has no beta (guard false); only the projection is compared.")
+TECHNIQUE = ("Coq proof (Gram-Schmidt orthogonality, Gauss-Jordan correctness, affine form of transform) + "
+             "fail-closed source translator for the fit/transform expressions + differential model/implementation run")
 TRUSTED = ["Coq 8.16.1 kernel and vm_compute", "harness/props/c15.py (generators, comparison, tolerances)",
+           "translators/t_corr.py + CorrExpr.eval (meaning of numpy broadcasting, .dot, lstsq(...)[0], atleast_2d)",
            "numpy.linalg.lstsq / sklearn validate_data (compared, not verified)",
            "no axioms (Print Assumptions: closed)"]
 ASSUMPTIONS = ["entries are exact rationals (the float implementation is compared at tolerance 1e-8 on small integers)",
@@ -254,6 +267,15 @@ def compare(case, out, model):
         v.append((f"{PID}/model/theorem-contradicted", f"model flags {model['zero_cov']}, {model['normal_eqs']}, "
                   f"{model['transform_eq_fit_transform']} contradict the proved theorems (harness or build defect)",
                   "zero covariance / normal equations / transform = fit_transform on the model", "correspondence"))
+    # the theorems' full-rank guard (Gauss-Jordan finds a pivot in every column <=> fit = Some) must agree with
+    # the exact rank of the centred sensitive block computed independently with Fractions
+    if "error" not in out and model["out"] is not None and "exact_rank" in out:
+        full = out["exact_rank"] == len(case["ids"])
+        if full != (model["fitted"] is not None):
+            v.append((f"{PID}/model/guard-is-not-full-rank", f"model guard fit=Some is {model['fitted'] is not None} "
+                      f"but the exact rank of the centred block is {out['exact_rank']} of {len(case['ids'])}",
+                      "Gauss-Jordan finds a pivot in every column iff the centred block has full column rank",
+                      "correspondence"))
     if "error" in out:
         if model["out"] is not None:
             v.append((f"{PID}/fit_transform/error/unexpected", f"implementation raised {out['msg']}",
